@@ -51,6 +51,22 @@ Theorem C07_begin_without_receipt_is_incomplete : forall ixa ixs, ixs <> ixa -> 
   run_handler (h_begin ixa ixs) f_begin None its = RErr EIncomplete.
 Proof. exact begin_without_receipt_is_incomplete. Qed.
 
+(* commit and cancel close exactly their token — whatever the terminal answers (completion, abort, nothing), also when the
+   clean-up chain runs — and leave every other token with its receipt number *)
+Theorem C07_cancel_closes_token : forall cfg st tok rn w, assoc_tok tok (s_txs st) = Some rn ->
+  let '(_, st', _) := cancel_transaction cfg st tok w in
+  s_txs st' = remove_tok tok (s_txs st) /\ s_max st' = s_max st.
+Proof. exact cancel_closes_token. Qed.
+Theorem C07_commit_closes_token : forall cfg st tok amount rn w, assoc_tok tok (s_txs st) = Some rn ->
+  let '(_, st', _) := commit_transaction cfg st tok amount w in
+  s_txs st' = remove_tok tok (s_txs st) /\ s_max st' = s_max st.
+Proof. exact commit_closes_token. Qed.
+Theorem C07_other_tokens_untouched : forall k k' l, list_eqb k' k = false -> assoc_tok k' (remove_tok k l) = assoc_tok k' l.
+Proof. exact assoc_remove_other. Qed.
+
+Print Assumptions C07_cancel_closes_token.
+Print Assumptions C07_commit_closes_token.
+Print Assumptions C07_other_tokens_untouched.
 Print Assumptions C07_begin_records_last_receipt.
 Print Assumptions C07_begin_without_receipt_is_incomplete.
 Print Assumptions C07_map_invariant.
